@@ -429,12 +429,18 @@ End Lister.
 (* a line of the data connection together with the outcome of the two date oracles on it *)
 Definition oline : Type := (list Z * result text * result text)%type.
 
+(* cls.parse_line(line) after cls.stream.readline(): the data connection's reader has the
+   same line limit; list_mode = the LIST fallback is in use for this directory *)
+Definition parse_data_line (dec : list Z -> option text) (ls_date win_date : text -> result text)
+           (limit : Z) (list_mode : bool) (b : list Z) : result (text * dict) :=
+  _ <- guard (negb (over_limit limit b)) ValueError ;;
+  if list_mode then parse_list_line dec ls_date win_date b
+  else parse_mlsx_line dec b.
+
 Definition parse_oline (dec : list Z -> option text) (limit : Z) (list_mode : bool) (l : oline)
   : result (text * dict) :=
   let '(b, o1, o2) := l in
-  _ <- guard (negb (over_limit limit b)) ValueError ;;
-  if list_mode then parse_list_line dec (fun _ => o1) (fun _ => o2) b
-  else parse_mlsx_line dec b.
+  parse_data_line dec (fun _ => o1) (fun _ => o2) limit list_mode b.
 
 (* ---- the dispatcher's reaction to what parse_command (a task) produced ----
    The `except` clauses around `task.result()` and around the loop, flattened in the order in
